@@ -454,3 +454,94 @@ class ObserverNotifierEqualsBody(NotifierEqualsBody):
         tb = z3.If(self.alive2, self.t2, NONE_T)
         return [("post:equivalent-iff-same-observer_handler-equal-graphs-handlers-dispatchers-and-the-IDENTICAL-target-object",
                  r == z3.And(self.oh1 == self.oh2, self.eqv(self.g1, self.g2), self.eqv(self.h1, self.h2), ta == tb, self.eqv(self.d1, self.d2)))]
+
+
+# ------------------------------------------------------------------------------------------------------------------
+# 'Registrations never keep the observed object or a bound-method handler's owner alive': what the notifiers hold
+# ------------------------------------------------------------------------------------------------------------------
+class _NotifierInit(Contract):
+    properties = ("C09",)
+    overloads = ("bound-method-handler", "plain-callable-handler", "not-callable")
+    extra_kwargs = ()
+    assumptions = ("A-PY", "weakref.ref / weakref.WeakMethod / functools.partial are opaque constructors: weak reference, weak method reference, strong holder",
+                   "callable() and isinstance(handler, types.MethodType) are opaque predicates of the handler fixed per overload")
+
+    def configure(self, cx, I, ov):
+        self.handler, self.target = z3.Consts("handler target", Val)
+        mod = VElem(z3.Const("a_module", Val))
+        cx.module_globals["weakref"] = mod
+        cx.module_globals["types"] = mod
+
+        def ctor(kind):
+            return lambda I2, o, st, k: k(VFunc("opaque", name=kind, apply=lambda I3, a, kw, s, kk: kk(VFunc(kind, of=a[0] if a else None, kw=dict(kw), args=tuple(a)), s)), st)
+        cx.elem_attrs["ref"] = ctor("weak-reference")
+        cx.elem_attrs["WeakMethod"] = ctor("weak-method-reference")
+        cx.elem_attrs["MethodType"] = lambda I2, o, st, k: k(cx.const("MethodType"), st)
+        cx.module_globals["partial"] = VFunc("opaque", name="partial", apply=lambda I2, a, kw, s, k: k(VFunc("strong-holder", of=kw.get("value"), fn=a[0] if a else None), s))
+        cx.module_globals["callable"] = VFunc("opaque", name="callable", apply=lambda I2, a, kw, s, k: k(VBool(z3.BoolVal(ov != "not-callable")), s))
+        cx.module_globals["isinstance"] = VFunc("opaque", name="isinstance", apply=lambda I2, a, kw, s, k: k(VBool(z3.BoolVal(ov == "bound-method-handler")), s))
+
+    def setup(self, cx, I, ov):
+        st = St()
+        self.self_ref = VRef(cx.new_oid())
+        st = st.put(self.self_ref.oid, HObj("obj", None, self.qualname.split(".")[0], {}))
+        kw = {"handler": VElem(self.handler), "target": VElem(self.target), "event_factory": VElem(z3.Const("event_factory", Val)),
+              "prevent_event": VElem(z3.Const("prevent_event", Val)), "dispatcher": VElem(z3.Const("dispatcher", Val))}
+        for n in self.extra_kwargs:
+            kw[n] = VElem(z3.Const(n, Val))
+        return st, [self.self_ref], kw, dict(witness={})
+
+    def post(self, cx, I, ov, info, kind, payload, st):
+        f = st.heap[self.self_ref.oid].fields
+        if ov == "not-callable":
+            if type(self).__name__.startswith("Observer"):
+                return [("post:no-callable-check-here-(the-user-handler-was-checked-by-the-trait-notifier)", z3.BoolVal(True))]
+            return [("raise:a-handler-that-is-not-callable-is-refused-with-ValueError", z3.BoolVal(kind == "raise" and payload.cname == "ValueError")),
+                    ("raise:nothing-is-held", z3.BoolVal(not f))]
+        if kind == "raise":
+            return [("exc-free", z3.BoolVal(False), dict(exception="%s %r" % (payload.cname or payload.sym, payload.origin)))]
+        t, h = f.get("target"), f.get("handler")
+        out = [("post:the-target-is-held-through-a-weak-reference-to-it", z3.BoolVal(isinstance(t, VFunc) and t.kind == "weak-reference" and isinstance(t.of, VElem) and t.of.t.eq(self.target) and len(t.args) == 1))]
+        if ov == "bound-method-handler":
+            out.append(("post:a-bound-method-is-held-through-a-weak-method-reference", z3.BoolVal(isinstance(h, VFunc) and h.kind == "weak-method-reference" and isinstance(h.of, VElem) and h.of.t.eq(self.handler))))
+        else:
+            import ast as _ast
+            holder = (isinstance(h, VFunc) and h.kind == "strong-holder" and isinstance(h.of, VElem) and h.of.t.eq(self.handler)
+                      and isinstance(h.fn, VFunc) and getattr(h.fn, "name", None) == "_return")
+            node = getattr(h, "node", None) if isinstance(h, VFunc) else None
+            closure = (isinstance(h, VFunc) and h.kind == "lambda" and isinstance(node, _ast.FunctionDef) and not node.args.args
+                       and [_ast.unparse(x) for x in node.body if not (isinstance(x, _ast.Expr) and isinstance(x.value, _ast.Constant))] == ["return handler"])
+            out.append(("post:a-plain-callable-is-held-by-a-holder-that-returns-it", z3.BoolVal(bool(holder or closure))))
+        # nothing else refers to the target or to the handler
+        leaks = [n for n, v in f.items() if n not in ("target", "handler") and isinstance(v, VElem) and (v.t.eq(self.target) or v.t.eq(self.handler))]
+        out.append(("post:no-other-attribute-holds-the-target-or-the-handler", z3.BoolVal(not leaks), {"attributes": ",".join(leaks)}))
+        d = f.get("dispatcher")
+        out.append(("post:dispatcher-kept", z3.BoolVal(isinstance(d, VElem) and d.t.eq(z3.Const("dispatcher", Val)))))
+        if "_ref_count" in f or not type(self).__name__.startswith("Observer"):
+            rc = f.get("_ref_count")
+            out.append(("post:a-new-notifier-counts-no-registration-yet", rc.t == 0 if isinstance(rc, VInt) else z3.BoolVal(False)))
+        return out
+
+    def covers(self, cx, ov, info):
+        if ov == "not-callable" and not type(self).__name__.startswith("Observer"):
+            return [("refused", lambda k, p, s: k == "raise")]
+        return [("built", lambda k, p, s: k == "return")]
+
+
+@register
+class TraitEventNotifierInit(_NotifierInit):
+    """TraitEventNotifier.__init__: the observed object's notifier refers to the target weakly and to a bound-method handler
+    through a WeakMethod (a plain callable strongly); it starts with reference count 0."""
+    path = PATH
+    qualname = "TraitEventNotifier.__init__"
+    class_paths = (PATH,)
+
+
+@register
+class ObserverChangeNotifierInit(_NotifierInit):
+    """ObserverChangeNotifier.__init__: the maintainer refers to the target weakly and to a bound-method handler through a
+    WeakMethod."""
+    path = OPATH
+    qualname = "ObserverChangeNotifier.__init__"
+    class_paths = (OPATH,)
+    extra_kwargs = ("observer_handler", "graph")
